@@ -93,6 +93,14 @@ func genWeekdays(r *rand.Rand) map[int]bool {
 	for i := 0; i < 7; i++ {
 		m[i] = r.Intn(2) == 0
 	}
+	switch r.Intn(8) {
+	case 0:
+		// a day that is none of the seven: it belongs to no field of the request
+		m[[]int{7, 8, -1, 100}[r.Intn(4)]] = true
+	case 1:
+		delete(m, 0) // no entry for Sunday at all
+		m[7] = true
+	}
 	return m
 }
 
@@ -200,6 +208,9 @@ func genDoors(r *rand.Rand) map[uint8]uint8 {
 	for k := uint8(1); k <= 4; k++ {
 		m[k] = GenU8(r)
 	}
+	if r.Intn(8) == 0 {
+		m[[]uint8{0, 5, 9, 255}[r.Intn(4)]] = GenU8(r) // no such door: ignored
+	}
 	if r.Intn(4) == 0 {
 		m[uint8(5+r.Intn(250))] = GenU8(r) // extra doors are ignored
 	}
@@ -256,10 +267,10 @@ func GenArgs(r *rand.Rand, op Op, serial uint32) Args {
 			c.PIN = uint32(r.Intn(1000000))
 		}
 		if r.Intn(12) == 0 {
-			c.From.Zero = true
+			c.From.Zero, c.From.ZK = true, r.Intn(4)
 		}
 		if r.Intn(12) == 0 {
-			c.To.Zero = true
+			c.To.Zero, c.To.ZK = true, r.Intn(4)
 		}
 		a.Card = c
 		switch r.Intn(5) {
@@ -291,6 +302,9 @@ func GenArgs(r *rand.Rand, op Op, serial uint32) Args {
 	case SetDoorPasscodes:
 		a.U8 = uint8(1 + r.Intn(4))
 		n := r.Intn(7)
+		if r.Intn(25) == 0 {
+			n = []int{255, 256, 257, 259, 260, 512, 1024}[r.Intn(7)] // a very long list: everything beyond the fourth is dropped
+		}
 		if n > 0 || r.Intn(2) == 0 {
 			a.Passcodes = []uint32{}
 		}
@@ -392,6 +406,14 @@ func genField(r *rand.Rand, k Kind, b []byte) {
 }
 
 func badNibble(r *rand.Rand, b []byte, n int) {
+	if r.Intn(6) == 0 {
+		// the whole field reads as erased or stuck memory
+		v := []byte{0xff, 0xff, 0xaa, 0xee}[r.Intn(4)]
+		for i := 0; i < n && i < len(b); i++ {
+			b[i] = v
+		}
+		return
+	}
 	i := r.Intn(n)
 	v := byte(10 + r.Intn(6))
 	if r.Intn(2) == 0 {
